@@ -9,6 +9,7 @@ import (
 	"sort"
 	"testing"
 
+	"github.com/ipfs/go-cid"
 	"github.com/libp2p/go-libp2p/core/crypto"
 	"golang.org/x/crypto/nacl/secretbox"
 	"google.golang.org/protobuf/proto"
@@ -145,6 +146,10 @@ func c03Catalogue(g, otherG *protocoltypes.Group, typ protocoltypes.EventType, k
 	}
 	// f3: member key
 	add("f3-member-key", seal(g, typ, payload, c03Sign(k.member, payload)), true)
+	// f12: the signing key every member can derive from the shared group secret (it signs log entries, never events)
+	if ssk, err := g.GetSigningPrivKey(); err == nil {
+		add("f12-secret-derived-signing-key", seal(g, typ, payload, c03Sign(ssk, payload)), true)
+	}
 	// f4: signer field swapped after signing (signed by `other` naming itself, then renamed to the victim device)
 	if !isGroupSigned {
 		p2 := proto.Clone(payload)
@@ -243,9 +248,9 @@ func c03SealRaw(g *protocoltypes.Group, typ protocoltypes.EventType, payload, si
 func TestVerifC03(t *testing.T) {
 	rep := verifkit.NewReport("C03", "c03-forged-metadata")
 	defer rep.Finish(t)
-	rep.Rule = "every event type of the protocol table (read from the table at run time) x forgery catalogue (signature by another device / group key / member key, signer swapped after signing, every bit flip of the signature, seeded bit flips of payload and box, " +
+	rep.Rule = "every event type of the protocol table (read from the table at run time) x forgery catalogue (signature by another device / group key / member key / the signing key derived from the shared group secret, signer swapped after signing, every bit flip of the signature, seeded bit flips of payload and box, " +
 		"missing/short signature, unknown type numbers, other group's secret, member-device announcement variants, malformed envelopes) x three group types; each forgery is opened directly and (all but most bit flips) appended to the live log of a victim replica, " +
-		"followed by a valid marker event; oracle: open fails, no event for the forged entry reaches subscribers, the getter snapshot is unchanged; positive control: the correctly signed event IS applied/emitted; second pass after the genuine event was opened and applied (history-dependent acceptance): every forgery opened again, those re-using genuine signature material appended again. distinct = (group type, event type, forgery, before/after genuine)"
+		"followed by a valid marker event; oracle: open fails, no event for the forged entry reaches subscribers or the history listing (ListEvents), the getter snapshot is unchanged; positive control: the correctly signed event IS applied/emitted; second pass after the genuine event was opened and applied (history-dependent acceptance): every forgery opened again, those re-using genuine signature material appended again. distinct = (group type, event type, forgery, before/after genuine)"
 	ctx := context.Background()
 	w := newVWorld(t)
 	victim := w.newReplica("V", nil)
@@ -334,6 +339,12 @@ func TestVerifC03(t *testing.T) {
 						rep.Violate("C03/forgery-emitted/"+typ.String(), "a forged entry was handed to subscribers", map[string]interface{}{"group_type": gt.String(), "event_type": typ.String(), "index": i})
 					}
 				}
+				listed := c03Listed(ctx, ms)
+				for i, c := range forgedCIDs {
+					if listed[c] {
+						rep.Violate("C03/forgery-listed/"+typ.String(), "a forged entry is handed out by the history listing (ListEvents)", map[string]interface{}{"group_type": gt.String(), "event_type": typ.String(), "index": i})
+					}
+				}
 				if after := snapshotStore(ms).String(); after != before {
 					rep.Violate("C03/forgery-changed-state/"+typ.String(), "group state changed although only forged entries (and a neutral marker) were added",
 						map[string]interface{}{"group_type": gt.String(), "event_type": typ.String(), "before": before, "after": after})
@@ -398,6 +409,15 @@ func TestVerifC03(t *testing.T) {
 							rep.Violate("C03/forgery-emitted-after-genuine/"+typ.String(), "a forged entry re-using genuine signature material was handed to subscribers", map[string]interface{}{"group_type": gt.String(), "event_type": typ.String(), "index": i})
 						}
 					}
+					listed := c03Listed(ctx, ms)
+					for i, c := range append(append([]string(nil), forgedCIDs...), forged2...) {
+						if listed[c] {
+							rep.Violate("C03/forgery-listed/"+typ.String(), "a forged entry is handed out by the history listing (ListEvents)", map[string]interface{}{"group_type": gt.String(), "event_type": typ.String(), "index": i, "after_genuine": true})
+						}
+					}
+					if vent != nil && !listed[vent.GetHash().String()] {
+						rep.Inconclusivef("%s: the genuine control event is not in the history listing", tag)
+					}
 					if after := snapshotStore(ms).String(); after != afterControl {
 						rep.Violate("C03/forgery-changed-state-after-genuine/"+typ.String(), "group state changed although only forged entries (and a neutral marker) were added after the genuine event",
 							map[string]interface{}{"group_type": gt.String(), "event_type": typ.String(), "before": afterControl, "after": after})
@@ -417,6 +437,21 @@ func TestVerifC03(t *testing.T) {
 	if rep.Counter("positive_controls_emitted") == 0 || rep.Counter("forged_entries_in_log") == 0 {
 		rep.Inconclusivef("controls missing: positive=%d forged_in_log=%d", rep.Counter("positive_controls_emitted"), rep.Counter("forged_entries_in_log"))
 	}
+}
+
+// c03Listed returns the ids the store's history listing hands out.
+func c03Listed(ctx context.Context, ms *MetadataStore) map[string]bool {
+	out := map[string]bool{}
+	ch, err := ms.ListEvents(ctx, nil, nil, false)
+	if err != nil {
+		return out
+	}
+	for e := range ch {
+		if _, c, err := cid.CidFromBytes(e.GetEventContext().GetId()); err == nil {
+			out[c.String()] = true
+		}
+	}
+	return out
 }
 
 func classOfForgery(id string) string {
